@@ -16,7 +16,10 @@ metamorphic: a program prints the same when its whole body is moved into a fiber
 (d) heap-state family: every per-fiber piece of state (local, local of a nested frame, captured variable, catch
 variable, handler spanning the switch, pending `return` / pending exception inside a finally block that yields,
 handed-over values) holds a FRESH heap object across suspensions while other fibers and the main script allocate;
-run in the debug build (collection at every allocation) and in release with gc=always, freed memory quarantined."""
+run in the debug build (collection at every allocation) and in release with gc=always, freed memory quarantined;
+(e) module family (harness `mods`): fibers defined in modules la/lb/main (globals `tag`/`cnt` of the same names in all),
+nested 1-3 deep across modules, driven from main's top level, main's functions, a lambda and a library function; the
+caller's own globals are read and written right after every call returns (yield, normal end, rejected call)."""
 import json
 import os
 
@@ -651,7 +654,8 @@ def hbuild(kind, tag, n):
 
 # shape -> (body source, [stage], captures?)   stage(p, a) -> (lines printed by the fiber, display of the call's result | None)
 # every body takes one parameter p (a fresh object made by the caller); stage 0 receives p, later stages the resume value a
-def heap_shape(name, k, kind, n):
+def heap_shape(name, k, kind, n, f=None):
+    cv = None
     T = "f%d" % k
     V = hdisp(kind, T, n)
     Y = hdisp(1, "y" + T, n)
@@ -664,7 +668,8 @@ def heap_shape(name, k, kind, n):
         body = '|p| { var r = inner(%d, "%s", %d, "y%s"); print("%s nested ${r} ${show(p)}"); return r; }' % (kind, T, n, T, T)
         st = [lambda p, a: ([], Y), lambda p, a: (["%s nested [%s, %s] %s" % (T, V, a, p)], "[%s, %s]" % (V, a))]
     elif name == "capture":  # only a closure over the fiber's local refers to it (open while suspended, closed afterwards)
-        body = '|p| { var c = %s; g%d = || c; Fiber.yield(%s); c = %s; Fiber.yield(%s); return 0; }' % (bv, k, yv, hbuild(kind, T + "b", n), yv)
+        body = ('|p| { var c = %s; g%d = || c; s%d = |v| { c = v; }; Fiber.yield(%s); c = %s; Fiber.yield(%s); return 0; }'
+                % (bv, k, k, yv, hbuild(kind, T + "b", n), yv))
         st = [lambda p, a: ([], Y), lambda p, a: ([], Y), lambda p, a: ([], "0")]
     elif name == "catchvar":  # the catch variable holds a thrown fresh object across a yield inside the catch block
         body = '|p| { var keep = nil; try { throw %s; } catch e { Fiber.yield(%s); keep = e; } print("%s caught ${show(keep)} ${show(p)}"); return keep; }' % (bv, yv, T)
@@ -682,47 +687,78 @@ def heap_shape(name, k, kind, n):
     elif name == "result":   # the body's result / the argument of yield are fresh objects seen only by the caller
         body = '|p| { var got = Fiber.yield(%s); return [show(got), show(p), show(%s)]; }' % (bv, bv)
         st = [lambda p, a: ([], V), lambda p, a: ([], "[%s, %s, %s]" % (a, p, V))]
+    elif name == "capmulti":
+        # 2-3 locals captured in a given ORDER (the open-upvalue list is kept sorted by slot: a later-declared local captured
+        # first makes the next record be linked BEHIND it); all closures but the one over local `surv` are dropped
+        nloc, order, surv = f["nloc"], f["order"], f["surv"]
+        cv = [hdisp(kind, "%sc%d" % (T, i), n) for i in range(nloc)]
+        decl = "".join("var c%d = %s; " % (i, hbuild(kind, "%sc%d" % (T, i), n)) for i in range(nloc))
+        caps = "".join(("g%d = || c%d; s%d = |v| { c%d = v; }; " % (k, i, k, i)) if i == surv else ("var d%d = || c%d; " % (i, i)) for i in order)
+        drops = "".join("d%d = nil; " % i for i in order if i != surv)
+        shows = " ".join("${show(c%d)}" % i for i in range(nloc))
+        body = '|p| { %s%s%sFiber.yield(%s); print("%s multi %s ${show(p)}"); return 0; }' % (decl, caps, drops, yv, T, shows)
+        st = [lambda p, a: ([], Y), lambda p, a: (["%s multi %s %s" % (T, " ".join(cv), p)], "0")]
     elif name == "excfin":   # an exception (fresh object) pending while the finally block yields; re-raised afterwards: ends the run
         body = '|p| { try { throw %s; } finally { Fiber.yield(%s); print("%s cleanup3 ${show(p)}"); } }' % (bv, yv, T)
         st = [lambda p, a: ([], Y), lambda p, a: (["%s cleanup3 %s" % (T, p)], ("raise", V))]
     else:
         raise ValueError(name)
-    return body, st
+    return body, st, cv
 
 
-HEAP_SHAPES = ["local", "nested", "capture", "catchvar", "tryspan", "retfin", "retfin2", "result"]
+HEAP_SHAPES = ["local", "nested", "capture", "capmulti", "capmulti", "catchvar", "tryspan", "retfin", "retfin2", "result"]
+
+
+def heap_fiber(rng, shape=None):
+    f = {"shape": shape or rng.choice(HEAP_SHAPES), "kind": rng.randrange(3), "n": rng.randint(0, 3)}
+    if f["shape"] == "capmulti":
+        f["nloc"] = rng.choice([2, 3])
+        f["order"] = list(range(f["nloc"]))
+        rng.shuffle(f["order"])
+        f["surv"] = rng.randrange(f["nloc"])
+    return f
+
+
+def heap_nstages(f, k):
+    return len(heap_shape(f["shape"], k, f["kind"], f["n"], f)[1])
 
 
 def gen_heap_spec(rng, big=False):
     nf = rng.randint(2, 4)
-    fibers = [{"shape": rng.choice(HEAP_SHAPES), "kind": rng.randrange(3), "n": rng.randint(0, 3)} for _ in range(nf)]
+    fibers = [heap_fiber(rng) for _ in range(nf)]
     if rng.random() < 0.5:
-        fibers[rng.randrange(nf)]["shape"] = rng.choice(["retfin", "retfin2"])
-    nst = []
-    for i, f in enumerate(fibers):
-        nst.append(len(heap_shape(f["shape"], i + 1, f["kind"], f["n"])[1]))
-    todo = []
-    for i in range(nf):
-        todo += [i + 1] * (nst[i] if rng.random() < 0.85 else rng.randint(1, nst[i]))   # some fibers are abandoned suspended
-    # the order of the calls of one fiber is fixed, the interleaving is random
-    rng.shuffle(todo)
-    if rng.random() < 0.2:
-        # last: a fiber suspended in a finally block with its exception pending (syntactically inside the open class
-        # finally_switch_shares_flag; nobody else touches try/finally here, so it is expected to work)
-        for f in fibers:      # no other fiber throws or runs a finally block meanwhile (that is the open class: the VM-wide flag)
-            if f["shape"] in ("catchvar", "tryspan", "retfin", "retfin2"):
-                f["shape"] = rng.choice(["local", "nested", "capture", "result"])
-        nst = [len(heap_shape(f["shape"], i + 1, f["kind"], f["n"])[1]) for i, f in enumerate(fibers)]
+        fibers[rng.randrange(nf)] = heap_fiber(rng, rng.choice(["retfin", "retfin2"]))
+
+    def plan():
         todo = []
         for i in range(nf):
-            todo += [i + 1] * (nst[i] if rng.random() < 0.85 else rng.randint(1, nst[i]))
-        rng.shuffle(todo)
-        fibers.append({"shape": "excfin", "kind": rng.randrange(2), "n": rng.randint(0, 3)})
+            ns = heap_nstages(fibers[i], i + 1)
+            todo += [i + 1] * (ns if rng.random() < 0.85 else rng.randint(1, ns))   # some fibers are abandoned suspended
+        rng.shuffle(todo)        # the order of the calls of one fiber is fixed, the interleaving is random
+        return todo
+    todo = plan()
+    if rng.random() < 0.2:
+        # last: a fiber suspended in a finally block with its exception pending (syntactically inside the open class
+        # finally_switch_shares_flag; nobody else throws or runs a finally block meanwhile, so it is expected to work)
+        for i, f in enumerate(fibers):
+            if f["shape"] in ("catchvar", "tryspan", "retfin", "retfin2"):
+                fibers[i] = heap_fiber(rng, rng.choice(["local", "nested", "capture", "capmulti", "result"]))
+        todo = plan()
+        fibers.append(heap_fiber(rng, "excfin"))
+        fibers[-1]["kind"] = rng.randrange(2)
         todo.insert(rng.randint(0, len(todo)), nf + 1)
         todo.append(nf + 1)
     sched = []
+    dropped = set()
     for j, k in enumerate(todo):
+        if k in dropped:
+            continue
         sched.append(["call", k, rng.randrange(3), rng.randint(0, 2)])
+        f = fibers[k - 1]
+        if f["shape"] in ("capmulti", "capture") and rng.random() < 0.6:
+            # the suspended fiber is abandoned: no reference to it remains, only the surviving closure over its local
+            sched.append(["drop", k])
+            dropped.add(k)
         r = rng.random()
         m = rng.randint(5, 60 if big else 25)
         if r < 0.45:
@@ -730,8 +766,31 @@ def gen_heap_spec(rng, big=False):
         elif r < 0.75:
             sched.append(["other", m])
         if rng.random() < 0.35:
-            sched.append(["get", rng.randint(1, nf)])
+            kk = rng.randint(1, nf)
+            sched.append(["get", kk] if rng.random() < 0.6 else ["set", kk, rng.randrange(3), rng.randint(0, 2)])
+    tail = []
+    for k in sorted(dropped):
+        tail += [["churn", rng.randint(5, 25)], ["get", k], ["set", k, rng.randrange(3), rng.randint(0, 2)], ["other", rng.randint(5, 25)], ["get", k]]
+    if fibers[-1]["shape"] == "excfin" and sched and sched[-1][0] == "call" and sched[-1][1] == len(fibers):
+        sched = sched[:-1] + tail + sched[-1:]
+    else:
+        sched += tail
     return {"fibers": fibers, "sched": sched}
+
+
+def capture_order_specs():
+    """EVERY capture order of 2 and of 3 locals x every surviving closure, the fiber abandoned while suspended"""
+    import itertools
+    res = []
+    for nloc in (2, 3):
+        for order in itertools.permutations(range(nloc)):
+            for surv in range(nloc):
+                kind = (surv + len(res)) % 3
+                res.append({"fibers": [{"shape": "capmulti", "kind": kind, "n": 2, "nloc": nloc, "order": list(order), "surv": surv},
+                                       {"shape": "local", "kind": 0, "n": 1}],
+                            "sched": [["call", 1, 0, 1], ["drop", 1], ["churn", 30], ["get", 1], ["call", 2, 1, 1], ["other", 30],
+                                      ["set", 1, 2, 2], ["churn", 20], ["get", 1], ["call", 2, 0, 0]]})
+    return res
 
 
 def render_heap(spec):
@@ -739,11 +798,13 @@ def render_heap(spec):
     fibers = spec["fibers"]
     src = [HEAP_PRELUDE]
     for i in range(len(fibers)):
-        src.append("var g%d = nil; var f%d = nil; " % (i + 1, i + 1))
+        src.append("var g%d = nil; var s%d = nil; var f%d = nil; " % (i + 1, i + 1, i + 1))
     stages = {}
+    cvs = {}
     for i, f in enumerate(fibers):
-        body, st = heap_shape(f["shape"], i + 1, f["kind"], f["n"])
+        body, st, cv = heap_shape(f["shape"], i + 1, f["kind"], f["n"], f)
         stages[i + 1] = st
+        cvs[i + 1] = cv
         src.append("f%d = Fiber.new(%s); " % (i + 1, body))
     src.append("var other = Fiber.new(|p| { var q = p; while true { q = Fiber.yield(churn(q)); } }); ")
     out = []
@@ -762,7 +823,10 @@ def render_heap(spec):
             lines, res = stages[k][pos[k]](pdisp[k], a)
             f = fibers[k - 1]
             if f["shape"] == "capture":
-                cap[k] = hdisp(f["kind"], "f%d" % k, f["n"]) if pos[k] == 0 else hdisp(f["kind"], "f%db" % k, f["n"])
+                if pos[k] < 2:
+                    cap[k] = hdisp(f["kind"], "f%d" % k, f["n"]) if pos[k] == 0 else hdisp(f["kind"], "f%db" % k, f["n"])
+            elif f["shape"] == "capmulti" and pos[k] == 0:
+                cap[k] = cvs[k][f["surv"]]
             pos[k] += 1
             src.append('print("%d> ${show(f%d.call(%s))}"); ' % (k, k, hbuild(kind, tag, n)))
             if isinstance(res, tuple):
@@ -778,6 +842,18 @@ def render_heap(spec):
             src.append('if g%d != nil { print("g%d ${show(g%d())}"); } ' % (k, k, k))
             if k in cap:
                 out.append("g%d %s" % (k, cap[k]))
+        elif step[0] == "set":
+            k, kind, n = step[1], step[2], step[3]
+            tag = "w%d" % j
+            src.append('if s%d != nil { s%d(%s); } ' % (k, k, hbuild(kind, tag, n)))
+            if k in cap:
+                cap[k] = hdisp(kind, tag, n)
+                if cvs[k] is not None:
+                    cvs[k][fibers[k - 1]["surv"]] = cap[k]
+        elif step[0] == "drop":
+            k = step[1]
+            src.append("f%d = nil; " % k)
+            pos[k] = len(stages[k])
     src.append('print(stash.len());')
     out.append(str(sum(1 for s in spec["sched"] if s[0] in ("churn", "other"))))
     return "".join(src), "|".join(out) + "#ok"
@@ -793,7 +869,7 @@ def shrink_heap(spec, fails, budget):
             del cand["fibers"][k - 1]
             sch = []
             for st in cand["sched"]:
-                if st[0] in ("call", "get"):
+                if st[0] in ("call", "get", "set", "drop"):
                     if st[1] == k:
                         continue
                     if st[1] > k:
@@ -834,6 +910,160 @@ def run_heap(dbg, rel, specs):
                 diff.append((mode, got, r.uaf))
         res.append((sp, src, exp, diff))
     return res
+
+
+# ------------------------------------------------------------------------------------------------
+# family (e): fibers across modules.  Every module (main, la, lb) has globals `tag` and `cnt` of the SAME names; a
+# fiber body reads and writes the globals of the module it was DEFINED in, and a caller gets its own module back
+# right after every `call` returns (yield, normal end, rejected call) - at top level, inside functions, inside fibers.
+
+def lib_src(tag, base):
+    return ('var tag = "%s"; var cnt = %d; '
+            'fn counter() { return Fiber.new(|a| { var x = a; while x != nil { cnt = cnt + 1; x = Fiber.yield("${tag}:${cnt}:${x}"); } '
+            'return "${tag}:end:${cnt}"; }); } '
+            'fn relay(g) { return Fiber.new(|a| { var x = a; while x != nil { var r = g.call(x); cnt = cnt + 1; '
+            'x = Fiber.yield("${tag}:${cnt}<${r}>"); } var r2 = g.call(nil); cnt = cnt + 100; return "${tag}:end:${cnt}<${r2}>"; }); } '
+            'fn drive(f, x) { var r = f.call(x); cnt = cnt + 1; return "${r}|${tag}|${cnt}"; } ' % (tag, base))
+
+
+class MFiber:
+    def __init__(self, mod, inner=None):
+        self.mod, self.inner, self.done = mod, inner, False
+
+    def call(self, mods, x):
+        """x: display string or None (nil) -> result display"""
+        m = mods[self.mod]
+        if x is None:
+            self.done = True
+            if self.inner is None:
+                return "%s:end:%d" % (m["tag"], m["cnt"])
+            r2 = self.inner.call(mods, None)
+            m["cnt"] += 100
+            return "%s:end:%d<%s>" % (m["tag"], m["cnt"], r2)
+        if self.inner is None:
+            m["cnt"] += 1
+            return "%s:%d:%s" % (m["tag"], m["cnt"], x)
+        r = self.inner.call(mods, x)
+        m["cnt"] += 1
+        return "%s:%d<%s>" % (m["tag"], m["cnt"], r)
+
+
+MODS = ["main", "la", "lb"]
+
+
+def gen_fiber_expr(rng, depth):
+    """(source expression in main, model) - nesting up to 3, modules chosen at random"""
+    mod = rng.choice(MODS)
+    pre = "" if mod == "main" else mod + "."
+    if depth <= 1 or rng.random() < 0.35:
+        return pre + "counter()", ("c", mod)
+    inner_src, inner = gen_fiber_expr(rng, depth - 1)
+    return "%srelay(%s)" % (pre, inner_src), ("r", mod, inner)
+
+
+def build_model(desc):
+    return MFiber(desc[1]) if desc[0] == "c" else MFiber(desc[1], build_model(desc[2]))
+
+
+def gen_mod_spec(rng):
+    nf = rng.randint(1, 3)
+    fibers = [gen_fiber_expr(rng, rng.randint(1, 3)) for _ in range(nf)]
+    steps = []
+    alive = list(range(nf))
+    for j in range(rng.randint(4, 12)):
+        k = rng.randrange(nf)
+        how = rng.choice(["top", "top", "fn", "libfn", "lambda"])
+        if k in alive:
+            if rng.random() < 0.2:
+                steps.append(["end", k, how])
+                alive.remove(k)
+            else:
+                steps.append(["call", k, how, rng.randint(1, 99)])
+        elif rng.random() < 0.4:
+            steps.append(["dead", k])
+    return {"fibers": [[s, d] for s, d in fibers], "steps": steps, "bases": [rng.randint(0, 5) * 10 for _ in MODS]}
+
+
+def render_mod(spec):
+    """-> (main source, {name: source}, expected result)"""
+    bases = spec["bases"]
+    libs = {"la": lib_src("la", bases[1]), "lb": lib_src("lb", bases[2])}
+    mods = {"main": {"tag": "main", "cnt": bases[0]}, "la": {"tag": "la", "cnt": bases[1]}, "lb": {"tag": "lb", "cnt": bases[2]}}
+    src = ['import "la" as la; import "lb" as lb; ', lib_src("main", bases[0]), "var r = nil; "]
+    models = []
+    for i, (fs, desc) in enumerate(spec["fibers"]):
+        src.append("var f%d = %s; " % (i, fs))
+        models.append(build_model(tuple_deep(desc)))
+    out = []
+    mm = mods["main"]
+    for st in spec["steps"]:
+        k = st[1]
+        if st[0] in ("call", "end"):
+            how = st[2]
+            x = None if st[0] == "end" else str(st[3])
+            xs = "nil" if x is None else x
+            if how == "top":
+                src.append('r = f%d.call(%s); cnt = cnt + 1; print("${r} / ${tag} ${cnt}"); ' % (k, xs))
+                r = models[k].call(mods, x)
+                mm["cnt"] += 1
+                out.append("%s / main %d" % (r, mm["cnt"]))
+            elif how == "fn":
+                src.append('print(drive(f%d, %s)); print("${tag} ${cnt}"); ' % (k, xs))
+                r = models[k].call(mods, x)
+                mm["cnt"] += 1
+                out += ["%s|main|%d" % (r, mm["cnt"]), "main %d" % mm["cnt"]]
+            elif how == "libfn":
+                src.append('print(lb.drive(f%d, %s)); cnt = cnt + 1; print("${tag} ${cnt}"); ' % (k, xs))
+                r = models[k].call(mods, x)
+                mods["lb"]["cnt"] += 1
+                mm["cnt"] += 1
+                out += ["%s|lb|%d" % (r, mods["lb"]["cnt"]), "main %d" % mm["cnt"]]
+            else:
+                src.append('print((|f, x| { var q = f.call(x); cnt = cnt + 1; return "${q};${tag};${cnt}"; })(f%d, %s)); ' % (k, xs))
+                r = models[k].call(mods, x)
+                mm["cnt"] += 1
+                out.append("%s;main;%d" % (r, mm["cnt"]))
+        else:
+            src.append('try { r = f%d.call(7); } catch e { cnt = cnt + 1; print("${tag} ${cnt} ${e.context}"); } ' % k)
+            mm["cnt"] += 1
+            out.append("main %d Cannot call a finished fiber." % mm["cnt"])
+    src.append('print("${tag} ${cnt} ${la.tag} ${la.cnt} ${lb.tag} ${lb.cnt}");')
+    out.append("main %d la %d lb %d" % (mm["cnt"], mods["la"]["cnt"], mods["lb"]["cnt"]))
+    return "".join(src), libs, "|".join(out) + "#ok"
+
+
+def tuple_deep(d):
+    return tuple(tuple_deep(x) if isinstance(x, (list, tuple)) else x for x in d)
+
+
+def mods_line(main, libs, opts="-"):
+    return "mods %s %s %s" % (opts, hx(main), " ".join("%s=%s" % (hx(n), hx(s)) for n, s in sorted(libs.items())))
+
+
+def run_mods(dbg, rel, specs):
+    rs = [render_mod(sp) for sp in specs]
+    lines = [mods_line(m, l) for m, l, _ in rs]
+    r1 = run_robust(dbg, lines, case_timeout_ms=10000)
+    r2 = run_robust(rel, lines, case_timeout_ms=10000)
+    res = []
+    for sp, (m, l, exp), a, b in zip(specs, rs, r1, r2):
+        diff = [(mode, impl_result(r)) for mode, r in (("debug", a), ("release", b)) if impl_result(r) != exp]
+        res.append((sp, m, l, exp, diff))
+    return res
+
+
+def shrink_mod(spec, fails, budget):
+    cur = json.loads(json.dumps(spec))
+    i = 0
+    while i < len(cur["steps"]) and budget[0] > 0:
+        cand = json.loads(json.dumps(cur))
+        del cand["steps"][i]
+        budget[0] -= 1
+        if fails(cand):
+            cur = cand
+        else:
+            i += 1
+    return cur
 
 
 # ------------------------------------------------------------------------------------------------
@@ -1102,6 +1332,7 @@ def run(ctx):
     else:
         hspecs = [gen_heap_spec(rng, big=(i % 3 == 0)) for i in range(120 if quick else 1500)]
         # the seeded shape, always: `return <fresh>` pending in a finally block that yields, others allocate meanwhile
+        hspecs += capture_order_specs()
         for kind in range(3):
             hspecs.append({"fibers": [{"shape": "retfin", "kind": kind, "n": 3}, {"shape": "local", "kind": 0, "n": 2}],
                            "sched": [["call", 1, 0, 1], ["other", 40], ["call", 2, 1, 1], ["churn", 30], ["call", 1, 0, 0], ["call", 2, 0, 1]]})
@@ -1131,6 +1362,33 @@ def run(ctx):
     if len(hbad) > 3:
         notes.append("%d further heap-state programs differ" % (len(hbad) - 3))
 
+    # --- family (e): fibers across modules
+    if ctx.replay_only and ctx.replay_only.get("mods"):
+        mspecs = [ctx.replay_only["mods"]]
+    elif ctx.replay_only:
+        mspecs = []
+    else:
+        mspecs = [gen_mod_spec(rng) for _ in range(150 if quick else 2000)]
+    t0 = time.time()
+    mres = run_mods(dbg, rel, mspecs)
+    log("[C09] %d multi-module programs x 2 builds in %.1fs" % (len(mspecs), time.time() - t0))
+    mbad = [x for x in mres if x[4]]
+    for n, (sp, msrc, libs, exp, diff) in enumerate(mbad[:2]):
+        if n == 0 and not ctx.replay_only:
+            budget = [20]
+
+            def mfails(q):
+                return bool(run_mods(dbg, rel, [q])[0][4])
+            small = shrink_mod(sp, mfails, budget)
+            x = run_mods(dbg, rel, [small])[0]
+            if x[4]:
+                sp, msrc, libs, exp, diff = x
+        ctx.violation("after a fiber defined in another module yields/ends/is rejected, the caller does not get its own module "
+                      "(its globals) back (%s build)" % diff[0][0],
+                      input={"main": msrc, "modules": libs}, expected=exp, actual=diff[0][1], mods=sp, family="modules")
+    if len(mbad) > 2:
+        notes.append("%d further multi-module programs differ" % (len(mbad) - 2))
+
     # keep the report short: at most five new violations (the first one shrunk) besides the known class
     kn = [v for v in ctx.violations if v.get("known_class")]
     nw = [v for v in ctx.violations if not v.get("known_class")]
@@ -1140,7 +1398,8 @@ def run(ctx):
 
     sample_i = next((i for i in idx if cases[i][2] == "random" and cases[i][1] and nontrivial(cases[i][1])), idx[0] if idx else None)
     ctx.cov.update({
-        "evaluations": len(idx) + len(tsel) * 2 + len(fin) + 2 * len(hspecs),
+        "evaluations": len(idx) + len(tsel) * 2 + len(fin) + 2 * len(hspecs) + 2 * len(mspecs),
+        "module_family": {"programs": len(mspecs), "runs": 2 * len(mspecs), "differing": len(mbad)},
         "distinct_nontrivial": len(nontriv),
         "rule": "programs of the mini-language written along ONE explicit interleaving by a status-only simulation "
                 "(random: 1-4 fibers, 6-40 steps, styles busy/errors/captures/deep; exhaustive: EVERY sequence of switch points "
